@@ -44,14 +44,17 @@ def heap_axiom(key, arr):
     x = z3.Int("x!wf")
     rng = arr.sort().range()
     if key.startswith("f:") and rng == z3.IntSort() and _is_ref_key(key):
-        return z3.ForAll([x], z3.Implies(z3.And(x > 0, x < ALLOC0), z3.And(arr[x] >= 0, arr[x] < ALLOC0)))
+        return z3.ForAll([x], z3.Implies(z3.And(x > 0, x < ALLOC0), z3.And(arr[x] >= 0, arr[x] < ALLOC0)),
+                         patterns=[arr[x]])
     if key.startswith("list:") and _is_ref_key(key):
         i = z3.Int("i!wf")
         return z3.ForAll([x, i], z3.Implies(z3.And(x > 0, x < ALLOC0, i >= 0, i < z3.Length(arr[x])),
-                                            z3.And(arr[x][i] >= 0, arr[x][i] < ALLOC0)))
+                                            z3.And(arr[x][i] >= 0, arr[x][i] < ALLOC0)),
+                         patterns=[arr[x][i]])
     if key.startswith("dval:") and _is_ref_key(key):
         k = z3.Const("k!wf", rng.domain())
-        return z3.ForAll([x, k], z3.Implies(z3.And(x > 0, x < ALLOC0), z3.And(arr[x][k] >= 0, arr[x][k] < ALLOC0)))
+        return z3.ForAll([x, k], z3.Implies(z3.And(x > 0, x < ALLOC0), z3.And(arr[x][k] >= 0, arr[x][k] < ALLOC0)),
+                         patterns=[arr[x][k]])
     return None
 
 
@@ -294,6 +297,8 @@ def box(v: V) -> V:
         return V(ANY, z3.Int("box_star_" + str(v.py)))
     if k in ("static", "class"):
         return V(ANY, static_ref(v.py))
+    if k == "closure":
+        return V(ANY, static_ref("closure:%s:%d" % (getattr(v, "_key", "?"), id(v.py[0]))))
     raise Unsupported("cannot box %s" % v.ty)
 
 
